@@ -552,6 +552,74 @@ def make_scenarios(run, g, quick, listed=None):
         ex.append(other)
         ex.append(exch([q_raw(g, g.small() + [fZ("I")])]))
         add("nonutf8", ex)
+    # Worlds in which pgcat's OWN statements on a server connection have non-trivial replies or timing: the health check `;`
+    # answered sooner / later than healthcheck_timeout (healthcheck_delay = 0: every checkout checks), the prewarmer's queries
+    # on every new connection (replies spanning several recv buffers, with notices, failing), the parameter sync at checkout
+    # after another client's ParameterStatus change, the check-in cleanup (RESET ALL after SET, ROLLBACK after a client left
+    # inside a transaction), slow.  Their replies must never reach a client; the client-visible exchanges around them are
+    # judged by the same rules.  Statement cache off and on (simple queries: no renaming involved).
+    for i in range(16 if quick else 240):
+        k = rng.choice([0, 0, 8])
+        hc_to = 400
+        general = {"healthcheck_delay": 0, "healthcheck_timeout": hc_to, "connect_timeout": 3000} if rng.random() < 0.7 else {}
+        pw = None
+        if rng.random() < 0.6:
+            qs = rng.sample(["SELECT 1 /*mock: rows=%d, size=%d*/" % (rng.choice([25, 40, 90]), rng.choice([400, 900])), "SELECT 2 /*mock: notice, rows=2*/",
+                             "SELECT 3 /*mock: error*/", "SELECT 4 /*mock: rows=1, size=%d*/" % (thrD_of(g) + rng.choice([-30, 0, 40])), "COPY t TO STDOUT /*mock: rows=30, size=400*/"], rng.randint(1, 3))
+            pw = "[plugins.prewarmer]\nenabled = true\nqueries = [%s]\n" % ", ".join(json.dumps(q) for q in qs)
+        ex = []
+
+        def plain(c="c"):
+            e = exch([q_raw(g, rng.choice([g.small, g.small, g.boundary_rows])() + [fZ("I")])])
+            e["c"] = c
+            if general:
+                # whether a checkout runs the health check depends on the connection having been idle for >= 1 ms, so an armed
+                # slow answer may hit a later checkout: any request may be refused by the pooler itself (E Z, nothing relayed)
+                e["expect"] = "ok_or_local"
+            return e
+        ex.append(plain())
+        for step in range(rng.randint(3, 6)):
+            w = rng.random()
+            e = plain(rng.choice(["c", "c", "c2"]))
+            if w < 0.35 and general:                              # the next checkout's health check is answered late
+                late = rng.random() < 0.6
+                e["pre"] = [{"op": "sleep", "ms": 5}, {"op": "backend", "b": "b0", "slow_exact": {"sql": ";", "ms": (hc_to + 500) if late else 60, "count": 1}}]
+                ex.append(e)
+                if late:
+                    ex.append({"sleep": 650})                      # the late `I Z` has been written by now
+            elif w < 0.55:                                        # ParameterStatus change seen by one client => SET at the other's checkout
+                e2 = exch([q_raw(g, [("S", cstr("TimeZone") + cstr(rng.choice(["UTC", "Europe/Paris"]))), fN(rng)] + g.small() + [fZ("I")])])
+                e2["c"] = e["c"]
+                ex.append(e2)
+                e["c"] = "c2" if e2["c"] == "c" else "c"
+                ex.append(e)
+            elif w < 0.75:                                        # SET => RESET ALL at check-in, slow
+                e2 = exch([{"t": "Q", "sql": "SET work_mem TO '1MB'"}])
+                e2["c"] = e["c"]
+                if rng.random() < 0.5:
+                    e2["pre"] = [{"op": "backend", "b": "b0", "slow_exact": {"sql": "RESET ALL", "ms": rng.choice([30, 150]), "count": 1}}]
+                ex.append(e2)
+                ex.append(e)
+            else:
+                ex.append(e)
+            ex.append(plain(rng.choice(["c", "c2"])))
+        # a client leaves inside a transaction: ROLLBACK at cleanup (slow), then the other client goes on
+        if rng.random() < 0.5:
+            b = exch([{"t": "Q", "sql": "BEGIN"}])
+            b["c"] = "c3"
+            ex.append(b)
+            nxt = plain("c")
+            nxt["pre"] = [{"op": "backend", "b": "b0", "slow_exact": {"sql": "ROLLBACK", "ms": rng.choice([20, 120]), "count": 1}}, {"op": "close", "c": "c3"}]
+            ex.append(nxt)
+            ex.append(plain("c2"))
+        if general:
+            for e in ex:
+                if "msgs" in e:
+                    e["expect"] = "ok_or_local"
+        add("ownstmt-%d" % k, ex)
+        scns[-1]["toml"] = W.make_toml(general=general, pools={"db": {"opts": {"prepared_statements_cache_size": k, "query_parser_enabled": bool(pw)}, "plugins": pw,
+                                                                          "users": [{"username": "u", "password": "pw", "pool_size": 1}],
+                                                                          "shards": [{"database": "db0", "servers": [["b0", "primary"]]}]}})
     # regression cases of repaired defects (must complete) and known deviations (must reproduce as listed)
     add("regress-F9", [exch([{"t": "Q", "sql": "SELECT 1; COPY t FROM STDIN"}], until="G"),
                        exch([{"t": "d", "data": "1\n"}, {"t": "c"}], copy=True), exch([{"t": "Q", "sql": "SELECT 2"}])])
@@ -584,15 +652,24 @@ def make_scenarios(run, g, quick, listed=None):
     return scns
 
 
+def thrD_of(g):
+    return g.thrD
+
+
 def clients_of(s):
-    return sorted({e.get("c", "c") for e in s["ex"]})
+    return sorted({e.get("c", "c") for e in s["ex"] if "msgs" in e})
 
 
 def build_steps(g, s):
     steps = [{"op": "connect", "c": c, "params": {"user": "u", "database": "db"}, "password": "pw"} for c in clients_of(s)]
-    for e in s["ex"]:
+    for e in list(s["ex"]):
+        if "sleep" in e:
+            steps.append({"op": "sleep", "ms": e["sleep"]})
+            continue
+        steps += e.get("pre", [])
         steps.append({"op": "send", "c": e.get("c", "c"), "msgs": e["msgs"]})
         steps.append({"op": "recv", "c": e.get("c", "c"), "until": e["until"], "count": e["count"], "timeout_ms": e["timeout"]})
+    s["ex"] = [e for e in s["ex"] if "msgs" in e]
     for c in clients_of(s):
         steps.append({"op": "recv", "c": c, "until": "", "count": 0, "timeout_ms": 120, "label": "drain"})
     return steps
@@ -652,7 +729,8 @@ def analyse(run, g, s, res, known_ids):
     for e in ev:
         if e.get("ev") == "msg":
             sql = (e["detail"].get("sql") or "").strip()
-            is_own = e["tag"] == "Q" and (sql in CLEANUP_SQL or sql.startswith("SET ")) and e["detail"].get("sql") not in client_sql
+            # pgcat's own statements (health check, prewarmer, parameter sync, cleanup): simple queries no client sent
+            is_own = (e["tag"] == "Q" and e["detail"].get("sql") not in client_sql) or e["tag"] == "X"      # X: pgcat closing a server connection
             cur_own[e["conn"]] = is_own
             if not is_own:
                 b_in.append((e["seq"], bytes.fromhex(e["detail"]["raw"])))
@@ -663,6 +741,8 @@ def analyse(run, g, s, res, known_ids):
            "sent": [bytes.fromhex(x["hex"]) for x in sent]}
     got_total = b""
     problem = None
+    n_local = 0
+    refused = set()                                               # requests the pooler refused itself (no server to be had)
     for i, e in enumerate(s["ex"]):
         # the `sent` event is logged after the write returned (the backend may already have answered): an
         # exchange's replies are the backend writes between the end of the previous recv and the end of this one
@@ -670,13 +750,24 @@ def analyse(run, g, s, res, known_ids):
         hi = recv[i]["seq"]
         out_i = b"".join(b for q, b in b_out if lo <= q < hi)
         raw_i = bytes.fromhex(recv[i].get("raw") or "")
-        got_total += raw_i
         out_sofar = b"".join(b for q, b in b_out if q < hi)
+        expect = e["expect"]
+        if expect == "ok_or_local":
+            # a checkout whose health check may time out: either the request is relayed, or the pooler answers it with its
+            # own ErrorResponse + ReadyForQuery and nothing reaches the server
+            fs_i = [f[0] for f in split_frames(raw_i)[0]]
+            expect = "local" if (fs_i == ["E", "Z"] and not out_i) else "ok"
+            if expect == "local":
+                refused.add(i)
+        local_bytes = raw_i if expect == "local" else b""
+        if expect != "local":
+            got_total += raw_i
         obs["per"].append({"reply": out_i, "got": raw_i, "outcome": recv[i]["outcome"]})
-        want_outcome = {"ok": "ok", "local": "ok", "silent": "timeout", "blocked": "timeout"}[e["expect"]]
+        want_outcome = {"ok": "ok", "local": "ok", "silent": "timeout", "blocked": "timeout"}[expect]
         if problem:
             continue
-        if e["expect"] == "local":
+        if expect == "local":
+            n_local += 1
             continue                                                # bytes not from the backend: judged below via backend_in
         if not out_sofar.startswith(got_total):
             problem = "exchange %d: the client received bytes the backend did not send in that order (first difference at byte %d)" % (i, next((k for k in range(min(len(out_sofar), len(got_total))) if out_sofar[k] != got_total[k]), min(len(out_sofar), len(got_total))))
@@ -696,6 +787,8 @@ def analyse(run, g, s, res, known_ids):
         rest_fs, junk = split_frames(all_out[len(got_total + drain):]) if all_out.startswith(got_total + drain) else ([], b"x")
         if junk or any(f[0] not in "NSA" for f in rest_fs):
             problem = "at the end the client had received %d bytes, the backend had sent %d (lost, duplicated or altered bytes)" % (len(got_total + drain), len(all_out))
+    if refused:
+        obs["client_bytes"] = b"".join(b for i, b in enumerate(obs["sent"]) if i not in refused)
     if not problem and obs["backend_in"] != obs["client_bytes"]:
         a, b = obs["backend_in"], obs["client_bytes"]
         k = next((k for k in range(min(len(a), len(b))) if a[k] != b[k]), min(len(a), len(b)))
@@ -741,7 +834,7 @@ def run_wire(wire, g, scns):
                 if c:
                     st["splits"] = c
         s["steps"] = steps
-        full.append({"backends": [{"name": "b0"}], "toml": t, "hex": True, "log_out": True, "steps": steps})
+        full.append({"backends": [{"name": "b0"}], "toml": s.get("toml") or t, "hex": True, "log_out": True, "steps": steps})
     return W.run_scenarios(wire, full, timeout=120)
 
 
@@ -779,6 +872,8 @@ def check_wire(run, wire, quick, samples, distinct, known_ids):
                           {"input": {"kind": "wire", "scenario": strip(s)}, "monitor": problem,
                            "exchanges": [{"backend_sent": len(p["reply"]), "client_got": len(p["got"]), "outcome": p["outcome"]} for p in obs["per"]]})
             return n_streams
+        if s["kind"].startswith("ownstmt"):
+            continue                                              # judged by the monitors only (the model has no pooler-own statements)
         exprs.append(model_exprs(s, obs))
         idx.append(si)
     # the monitors must see through harness-side mutants of real observations (non-UTF-8 scenarios: two clients)
@@ -946,7 +1041,7 @@ def check_wire_cached(run, wire, quick, samples, distinct):
 
 
 def strip(s):
-    return {"kind": s["kind"], "known": s["known"], "steps": s["steps"],
+    return {"kind": s["kind"], "known": s["known"], "steps": s["steps"], "toml": s.get("toml"),
             "ex": [{k: v for k, v in e.items() if not k.startswith("_")} for e in s["ex"]]}
 
 
@@ -1048,7 +1143,7 @@ def replay(run, path):
     if inp.get("kind") == "wire":
         ok, blog, bins = vlib.cargo_build(["wire"])
         s = inp["scenario"]
-        res = W.run_scenario(bins["wire"], {"backends": [{"name": "b0"}], "toml": toml(), "hex": True, "log_out": True, "steps": s["steps"]}, timeout=120)
+        res = W.run_scenario(bins["wire"], {"backends": [{"name": "b0"}], "toml": s.get("toml") or toml(), "hex": True, "log_out": True, "steps": s["steps"]}, timeout=120)
         g = Gen(run.rng, 8196, 8196, 8196)
         problem, obs = analyse(run, g, s, res, set())
         print("replay: monitor says: %s" % (problem or "bytes relayed complete, in order, unmodified"))
